@@ -3,6 +3,31 @@
 import json, sys
 
 CHECKS = {
+ "C02": dict(
+   text="One accepted Runge-Kutta step from an arbitrary symbolic state on the linear test equation y' = lambda*y (lambda, y, step bounds and tolerance symbolic, the property's coupling |lambda| dt_max <= 2 tol^(1/5) resp. tol^(1/3) as polynomial constraints, the exact flow enclosed by a degree-9 Taylor polynomial with explicit remainder): on every accepting path z3 (nlsat) proves |y_new - e^(lambda h) y| <= 4 tol h. RK23 in the quick tier, RK45 in the thorough tier. Partial: the multistep solvers and non-linear problems are outside.",
+   note="Real arithmetic; one-step claim from an arbitrary state (complete for one-step methods on this family); Adams/BDF steps, quadrature problems (Lipschitz constant 0: the property's coupling is vacuous) and the 1e-13 reference flow are outside.",
+   tech="symbolic execution of the real Runge-Kutta stepper + SMT (z3 nlsat) with a Taylor enclosure of the exact flow",
+   ref="6/C02"),
+ "C04": dict(
+   text="Decided parts: a dynamically sized state gives the same path (times, states, number of derivative evaluations) as a statically sized one for an arbitrary right-hand side and symbolic configuration (Euler, Adams3; RK23/RK45 in the thorough tier); the complex problem y' = lambda*y in C^1 and the equivalent real 2x2 system give the same points (Euler; RK23 in the thorough tier) with lambda, start and configuration symbolic; Euler's first-order global bound on y' = lambda*y over 4 steps. The convergence ladders over long intervals are outside the bound.",
+   note="Real arithmetic; prefixes of 2-4 points; tolerance ladders, dimension 3-4 and problem-dependent constants of non-linear problems are outside.",
+   tech="symbolic execution of the real steppers at Sym, Complex<Sym>, Const<2> and Dyn + SMT-decided equality of the resulting terms",
+   ref="6/C04"),
+ "C05": dict(
+   text="The one-step controller contract the work bound follows from: for an arbitrary right-hand side and symbolic configuration every Runge-Kutta retry after a rejection uses a step in [0.1, 0.9] x the rejected step (no unbounded run of rejections), growth is at most 4x and capped by dt_max, every attempt costs exactly the stage count; all six adaptive solvers complete solutions at rest and straight-line solutions on short horizons without error, land on the end time with the exact state and spend work proportional to the number of steps; on y' = lambda*y the first trial step is accepted whenever tol >= K |lambda y| |lambda h|^p (estimator order; RK23 quick, all six thorough).",
+   note="Real arithmetic with IEEE semantics for division by a zero error estimate; the global evaluation count over long intervals is the pen-and-paper corollary and is not machine-checked.",
+   tech="symbolic execution of the real controllers + SMT (z3 nlsat) per-step contract; DFS over accept/reject patterns",
+   ref="6/C05"),
+ "C08": dict(
+   text="On the sub-class where each method is exact in finitely many steps: affine systems A(x-r) (seeded concrete well-conditioned A, dimension 1-2 quick / 1-3 thorough; root, start, tolerance and finite-difference width symbolic; starts arbitrary, at the origin and exactly on the root) are solved by newton and secant within 4 tol; singular A gives Err; Steffensen returns the fixed point of every affine contraction |a| <= 0.9 down to tol = 1e-13, also when started on it; newton_polynomial returns the root of every degree-1 polynomial from any start.",
+   note="Real arithmetic; the non-linear part of the property and muller_polynomial are outside (no finite-step exactness for a solver to decide).",
+   tech="symbolic execution of the real iterations (incl. nalgebra LU) + SMT (z3 nlsat/simplex)",
+   ref="6/C08"),
+ "C17": dict(
+   text="linear_fit: normal equations, exact-line reproduction and order independence with symbolic abscissae and ordinates (n <= 4) and seeded abscissae with symbolic ordinates (n <= 24/60); Levenberg-Marquardt on a model linear in its parameters with symbolic data and start: the first trial parameter vector handed to the model closure is proved to be the damped normal-equation step with the true Jacobian (analytic and finite-difference variants), a start at the optimum is returned, invalid tolerance / width / damping / lengths are rejected before any model call. One known finding (finite-difference Jacobian) is reported as KNOWN-FINDING.",
+   note="Real arithmetic; LM to convergence from a start away from the optimum and non-linear models are outside (measured: not viable past 3 iterations).",
+   tech="symbolic execution of the real fitting code (incl. nalgebra LU) + SMT (z3 simplex/nlsat); the trial step is observed through the model closure",
+   ref="6/C17"),
  "C06": dict(
    text="Every sequence of up to 3 (quick) / 5 (thorough) builder calls over {tolerance, min step, max step, start, end} is executed on each of the seven real builders with UNCONSTRAINED symbolic argument values and compared, branch by branch, with a reference model of the builder contract: z3 proves that a call is rejected exactly when the model says so (dedicated error variant), that min <= max after any order of setters (observed through the first trial step), that complete configurations build and incomplete ones report MissingParameters; static/dynamic misuse is checked for all builders; a derivative function failing at call k (k = 0..15 / 0..47) yields exactly one Err item carrying that error, no further derivative calls, nothing from three more next() calls, and collect_vec returns it.",
    note="Small-scope exhaustive over call sequences; argument values symbolic in [-5,5]; the user-error part runs on a seeded concrete linear problem with symbolic tolerance (concrete for the Runge-Kutta kinds).",
@@ -71,6 +96,8 @@ CHECKS = {
 }
 
 NOT_APPLICABLE = [
+ {"property_id": "C14", "reason": "For degree >= 3 the result is the limit of Laguerre iteration (complex square roots via atan2/cos/sin), deflation and Newton polishing: the iterates are nested rational-transcendental functions of the coefficients, there is no finitely-exact sub-class, so symbolic coefficients give the solver only uninterpreted terms and concrete coefficients make the run a unit test; solver-based checking cannot decide it (DESIGN.md section 7)."},
+ {"property_id": "C20", "reason": "A finite ground comparison of 354 generated rows and ~25 literals with a text file: there is no input, schedule or history to make symbolic and the generating code is a build-script main with no callable unit; a solver query would be constant evaluation, i.e. a unit test in SMT-LIB clothing (DESIGN.md section 7)."},
 ]
 
 def main():
